@@ -251,6 +251,39 @@ def run(fx, tier):
                 where='%s:%d' % (caller.path_file(), line))
         if seen == 0:
             raise AnalysisBroken('no caller of %s::%s found' % (tgt_cls, tgt_names))
+    # the set of identifiers in use lives in ONE allocator object for the life of the service: nothing replaces,
+    # resets, moves from or swaps client_service::_pid_allocator, and nothing but allocate()/free() is called on it
+    # (a reset while exchanges are outstanding makes their later free_pid() a double free: the id is handed out twice)
+    n_use = 0
+    for f in fx.fns:
+        if not f.path_file().startswith('boost/mqtt5/') or f.d.get('ctor'):
+            continue
+        for b, i, l, x in f.elements():
+            x = f.resolve({'k': 'elem', 'b': b, 'i': i})
+            if not isinstance(x, dict):
+                continue
+            tgt = None
+            how = None
+            if x.get('k') == 'assign':
+                tgt, how = strip(x.get('l')), 'assigned'
+            elif x.get('k') == 'call' and x.get('op') == '=' and x.get('args'):
+                tgt, how = strip(x['args'][0]), 'assigned'
+            elif x.get('k') == 'call' and 'obj' in x and isinstance(strip(x['obj']), dict) and strip(x['obj']).get('k') == 'mem' \
+                    and strip(x['obj']).get('n') == '_pid_allocator':
+                n_use += 1
+                if callee_name(x) not in ('allocate', 'free'):
+                    tgt, how = strip(x['obj']), 'used through %s()' % callee_name(x)
+            elif x.get('k') in ('move',) and isinstance(strip(x.get('e')), dict) and strip(x['e']).get('n') == '_pid_allocator':
+                tgt, how = strip(x['e']), 'moved from'
+            elif x.get('k') == 'call' and callee_name(x) in ('swap', 'exchange') and contains(
+                    x.get('args', []), lambda n: n.get('k') == 'mem' and n.get('n') == '_pid_allocator'):
+                tgt, how = {'k': 'mem', 'n': '_pid_allocator'}, 'swapped'
+            if isinstance(tgt, dict) and tgt.get('k') == 'mem' and tgt.get('n') == '_pid_allocator':
+                v.fail('R-OWN', '%s::%s: _pid_allocator %s [%s]' % (f.cls, f.n, how, f.tu),
+                       'the allocator that records the identifiers in use is replaced or bypassed while exchanges may be outstanding',
+                       key='C08:R-OWN:_pid_allocator:%s::%s' % (f.cls, f.n), where='%s:%s' % (f.path_file(), l))
+    v.check(n_use >= 2, 'R-OWN', '_pid_allocator uses', '%d member calls on the allocator, all allocate()/free()' % n_use,
+            key='C08:R-OWN:_pid_allocator:uses')
     # ---- R-ITER: the allocator's interval list is edited through iterators; an iterator used after the
     # erase/insert that invalidated it reads a neighbouring interval (identifiers handed out twice)
     import iterinv
